@@ -342,15 +342,29 @@ def generate():
     dumps = "s = json.dumps(obj, cls=ExtendedEncoder)"
     if len(sjb) != 2 or U(sjb[1]) != "f.write(six.ensure_binary(s))":
         bail("serialize_to_json_utf8: the line is no longer written by one f.write after the encoding")
+    total = "false"
     if U(sjb[0]) == dumps:
-        retry = "false"
+        stages = 1
     elif isinstance(sjb[0], ast.Try) and [U(x) for x in sjb[0].body] == [dumps] and len(sjb[0].handlers) == 1 \
-            and not sjb[0].finalbody and not sjb[0].orelse \
-            and all(isinstance(x, ast.Assign) and U(x.targets[0]) == "s" for x in sjb[0].handlers[0].body):
-        retry = "true"
+            and not sjb[0].finalbody and not sjb[0].orelse:
+        stages = 2
+        h1 = sjb[0].handlers[0]
+        # total form: except Exception: try: s = dumps(_make_jsonable(obj)) except Exception: s = json.dumps(_last_resort(obj))
+        if h1.type is not None and U(h1.type) == "Exception" and len(h1.body) == 1 and isinstance(h1.body[0], ast.Try):
+            t2 = h1.body[0]
+            if [U(x) for x in t2.body] == ["s = json.dumps(_make_jsonable(obj), cls=ExtendedEncoder)"] and len(t2.handlers) == 1 \
+                    and not t2.finalbody and not t2.orelse and t2.handlers[0].type is not None \
+                    and U(t2.handlers[0].type) == "Exception" \
+                    and [U(x) for x in t2.handlers[0].body] == ["s = json.dumps(_last_resort(obj))"]:
+                lr = P.find_def(fm, "_last_resort")
+                if any(isinstance(n, ast.Raise) for n in ast.walk(lr)):
+                    bail("_last_resort contains a raise")
+                stages = 3
+                total = "true"
     else:
         bail("serialize_to_json_utf8 changed: " + U(sjb[0]))
-    out.append("Definition serialize_retries_on_failure : bool := %s.   (* json.dumps failure -> second attempt on a sanitised copy *)" % retry)
+    out.append("Definition serialize_stages : Z := %d." % stages)
+    out.append("Definition serialize_total : bool := %s.   (* json.dumps -> sanitised copy -> last-resort record, each under `except Exception` *)" % total)
     sw = P.find_def(fm, "serialize_wrapper")
     if [U(x) for x in sw.body] != ["wrapper = {'from': from_, 'rx_time': rx_time, 'd': ev}", "serialize_to_json_utf8(f, wrapper)",
                                    "f.write(b'\\n')"]:
